@@ -112,7 +112,10 @@ func (b *Binder) GoType(typ, use string) reflect.Type {
 			case f.Optional && f.Nullable:
 				ft = reflect.PointerTo(reflect.PointerTo(ft))
 			case f.Nullable:
-				ft = reflect.PointerTo(ft)
+				// likewise: a nil slice can stand for null
+				if !b.nilableNullable(ty, f, ft) {
+					ft = reflect.PointerTo(ft)
+				}
 			case f.Optional:
 				// slices and the ordered-map struct... only slices are nilable without a pointer
 				if !b.nilableOptional(ty, f, ft) {
@@ -147,6 +150,15 @@ func (b *Binder) nilableOptional(ty *tschema.TypeSpec, f tschema.FieldSpec, ft r
 		return false
 	}
 	return b.Ch.at("optslice:"+ty.Name+"."+f.Name, 2) == 0
+}
+
+// nilableNullable: a nullable (not optional) list field bound to a plain slice, nil meaning null. As with
+// nilableOptional an empty list and null are then one Go value, so fit() turns the empty list into null.
+func (b *Binder) nilableNullable(ty *tschema.TypeSpec, f tschema.FieldSpec, ft reflect.Type) bool {
+	if ft.Kind() != reflect.Slice || ft.Elem().Kind() == reflect.Uint8 || ty.Repr == "tuple" || ty.Repr == "stringjoin" {
+		return false
+	}
+	return b.Ch.at("nullslice:"+ty.Name+"."+f.Name, 2) == 0
 }
 
 func intRange(t reflect.Type) (lo int64, hi uint64) {
@@ -250,6 +262,9 @@ func (b *Binder) fit(typ, use string, tv tschema.TV, big bool) tschema.TV {
 			if f.Optional && !f.Nullable && it.K == "list" && len(it.Items) == 0 && b.nilableOptional(ty, f, b.GoType(f.Type, typ+"."+f.Name)) {
 				out.Items[i] = tschema.TV{K: "absent"}
 			}
+			if f.Nullable && !f.Optional && it.K == "list" && len(it.Items) == 0 && b.nilableNullable(ty, f, b.GoType(f.Type, typ+"."+f.Name)) {
+				out.Items[i] = tschema.TV{K: "null"}
+			}
 		}
 	case "union":
 		m := ty.Members[tv.Member]
@@ -329,6 +344,11 @@ func (b *Binder) fill(dst reflect.Value, typ, use string, tv tschema.TV) error {
 			p := reflect.New(slot.Type().Elem().Elem())
 			inner.Elem().Set(p)
 			return b.fill(p.Elem(), etyp, euse, it)
+		case nullable && slot.Kind() != reflect.Ptr: // a nilable slice used as a nullable
+			if it.K == "null" {
+				return nil
+			}
+			return b.fill(slot, etyp, euse, it)
 		case nullable: // *T
 			if it.K == "null" {
 				return nil
@@ -456,6 +476,9 @@ func (b *Binder) GoView(v reflect.Value, typ string) (val.V, error) {
 		if nullable {
 			if slot.IsNil() {
 				return val.MkNull(), nil
+			}
+			if slot.Kind() != reflect.Ptr {
+				return b.GoView(slot, etyp)
 			}
 			return b.GoView(slot.Elem(), etyp)
 		}
